@@ -658,7 +658,7 @@ package engine
 //@ pred matchOk(m Match, d Str, f Str) := 0 <= m.Offset.Start && m.Offset.Start < m.Offset.End && m.Offset.End <= len(d) && m.Value == ssub(d, m.Offset.Start, m.Offset.End) && m.Filename == f
 //@    && (asciiText(d) ==> m.Line.Start == lineOf(d, m.Offset.Start) && m.Line.End == lineOf(d, m.Offset.End) && m.Column.Start == colOf(d, m.Offset.Start) && m.Column.End == colOf(d, m.Offset.End))
 
-//@ func findMatches [C03 C09 C10 C04]
+//@ func findMatches [C03 C09 C10 C04 C13]
 //@   requires reader != nil && rdInv(reader) && skip >= 0 && take >= 0 && last >= 0
 //@   let d := rdData(reader)
 //@   modifies inferred
